@@ -51,9 +51,9 @@ Proof. vm_compute. repeat split; reflexivity. Qed.
 (* c07_cache_same_verdict / c07_fresh_reply_is_gate: a history with a hit
    (request 2 repeats prompt "a" within the TTL although the agents would now
    say BLOCK/BLOCK), an expiry (request 3, 9 s later) and a second prompt *)
-Definition hist1 : list req :=
-  [ mkReq [97] 0 VExecute VPermit; mkReq [98] 1 VBlock VBlock;
-    mkReq [97] 2 VBlock VBlock;    mkReq [97] 9 VBlock VBlock ].
+Definition hist1 : list op :=
+  [ OReq (mkReq [97] 0 VExecute VPermit); OReq (mkReq [98] 1 VBlock VBlock);
+    OReq (mkReq [97] 2 VBlock VBlock);    OReq (mkReq [97] 9 VBlock VBlock) ].
 
 Example ex_cache_hit :
   let tr := trace hash_x (fun p => p) cf_and hist1 in
@@ -66,7 +66,7 @@ Example ex_cache_hit :
 Proof. vm_compute. repeat split; try reflexivity. eexists; eexists; repeat split; reflexivity. Qed.
 
 Example ex_hist1_keys_injective :
-  forall a b, In a hist1 -> In b hist1 ->
+  forall a b, In (OReq a) hist1 -> In (OReq b) hist1 ->
     (fun p : str => p) (q_prompt a) = (fun p : str => p) (q_prompt b) -> q_prompt a = q_prompt b.
 Proof. intros a b _ _ E. exact E. Qed.
 
@@ -74,7 +74,7 @@ Proof. intros a b _ _ E. exact E. Qed.
 Example ex_exception_not_cached :
   map (fun x => (r_cached (snd x), c_blocked (r_core (snd x))))
       (trace hash_x (fun p => p) cf_and
-             [mkReq [97] 0 VRaised VPermit; mkReq [97] 1 VExecute VPermit])
+             [OReq (mkReq [97] 0 VRaised VPermit); OReq (mkReq [97] 1 VExecute VPermit)])
   = [(false, true); (false, false)].
 Proof. vm_compute. reflexivity. Qed.
 
@@ -83,21 +83,79 @@ Proof. vm_compute. reflexivity. Qed.
 Example ex_eviction :
   map (fun x => (r_cached (snd x), r_cache_size (snd x)))
       (trace hash_x (fun p => p) (mkConfig LAnd [89] true 100 2)
-             [mkReq [1] 0 VExecute VPermit; mkReq [2] 1 VExecute VPermit; mkReq [3] 2 VExecute VPermit;
-              mkReq [1] 3 VBlock VBlock; mkReq [3] 3 VBlock VBlock])
+             (map OReq [mkReq [1] 0 VExecute VPermit; mkReq [2] 1 VExecute VPermit; mkReq [3] 2 VExecute VPermit;
+                        mkReq [1] 3 VBlock VBlock; mkReq [3] 3 VBlock VBlock]))
   = [(false, 1%nat); (false, 2%nat); (false, 2%nat); (false, 2%nat); (true, 2%nat)].
+Proof. vm_compute. reflexivity. Qed.
+
+(* c07_history_exception_blocks / c07_agents_consulted_iff_not_cached: the
+   prompt was permitted and cached (request 0), is served from the cache while
+   valid even though the assessor would now raise (request 1: nobody is asked,
+   so nothing raises), and once the entry has expired the raising assessor
+   (request 2) and the raising executor (request 3) both give the blocked ERROR
+   result without a token - the hypotheses of the theorem are met at 2 and 3,
+   not at 1 - and nothing of it is cached (request 4 asks again). *)
+Definition hist_exc : list op :=
+  [ OReq (mkReq [97] 0 VExecute VPermit); OReq (mkReq [97] 4 VExecute VRaised);
+    OReq (mkReq [97] 5 VExecute VRaised); OReq (mkReq [97] 6 VRaised VPermit);
+    OReq (mkReq [97] 7 VExecute VPermit) ].
+
+Example ex_exception_after_expiry :
+  let tr := trace hash_x (fun p => p) cf_and hist_exc in
+  map (fun x => (r_cached (snd x), r_exec_called (snd x), r_assess_called (snd x))) tr
+    = [(false, true, true); (true, false, false); (false, true, true); (false, true, false); (false, true, true)] /\
+  map (fun x => c_blocked (r_core (snd x))) tr = [false; false; true; true; false] /\
+  map (fun x => r_core (snd x)) (firstn 2 (skipn 2 tr))
+    = [mkCore false AError true None; mkCore false AError true None] /\
+  map (fun x => r_shown (snd x)) tr = [Some [97]; None; Some [97]; Some [97]; Some [97]].
+Proof. vm_compute. repeat split; reflexivity. Qed.
+
+(* c07_tokens_not_interchangeable: two prompts, two tokens, different hashes;
+   the repeat of the first prompt carries the first token again *)
+Example ex_tokens_differ :
+  map (fun x => c_token (r_core (snd x)))
+      (trace hash_x (fun p => p) cf_and
+             [OReq (mkReq [97] 0 VExecute VPermit); OReq (mkReq [65] 0 VExecute VPermit);
+              OReq (mkReq [97] 1 VBlock VBlock)])
+  = [Some (mkToken [7; 97] [89]); Some (mkToken [7; 65] [89]); Some (mkToken [7; 97] [89])].
+Proof. vm_compute. reflexivity. Qed.
+
+(* c07_clear_forgets / c07_observe_is_noop: within the TTL the repeat is a hit
+   after a read-only call and a fresh evaluation after clear_cache() *)
+Example ex_clear_and_observe :
+  map (fun x => (r_cached (snd x), c_blocked (r_core (snd x))))
+      (trace hash_x (fun p => p) cf_and
+             [OReq (mkReq [97] 0 VExecute VPermit); OObserve; OReq (mkReq [97] 1 VBlock VBlock);
+              OClear; OReq (mkReq [97] 2 VBlock VBlock)])
+  = [(false, false); (true, false); (false, true)] /\
+  map (fun e => snd e)
+      (etrace_from hash_x (fun p => p) cf_and []
+             [OReq (mkReq [97] 0 VExecute VPermit); OObserve; OClear; OObserve])
+  = [1%nat; 1%nat; 0%nat; 0%nat].
+Proof. vm_compute. split; reflexivity. Qed.
+
+(* c07_loops_isolated: the same prompt sent to two objects (AND and OR) is
+   evaluated by each; the second object's reply is not the first one's *)
+Example ex_two_loops :
+  map (fun x => match x with
+                | (b, (_, Some r, _)) => (b, r_cached r, c_blocked (r_core r))
+                | (b, _) => (b, false, false) end)
+      (sys_trace hash_x (fun p => p) cf_and cf_or
+             [(false, OReq (mkReq [97] 0 VExecute VPermit)); (true, OReq (mkReq [97] 1 VBlock VBlock));
+              (false, OReq (mkReq [97] 2 VBlock VBlock)); (true, OReq (mkReq [97] 3 VExecute VPermit))])
+  = [(false, false, false); (true, false, true); (false, true, false); (true, true, true)].
 Proof. vm_compute. reflexivity. Qed.
 
 (* The injectivity hypothesis is needed: with a cache key that collides on
    two different prompts, the second prompt is answered with the first one's
    verdict and a token bound to the first prompt's hash. *)
 Lemma c07_key_collision_breaks_binding :
-  exists (K : str -> str) qs i qi ri t,
-    nth_error (trace hash_x K cf_and qs) i = Some (qi, ri) /\
+  exists (K : str -> str) ops i qi ri t,
+    nth_error (trace hash_x K cf_and ops) i = Some (qi, ri) /\
     c_token (r_core ri) = Some t /\ tk_hash t <> hash_x (q_prompt qi) /\
     spec_pass (cf_logic cf_and) (q_exec qi) (q_assess qi) = false /\
     c_blocked (r_core ri) = false.
 Proof.
-  exists (fun _ => []), [mkReq [97] 0 VExecute VPermit; mkReq [98] 1 VBlock VBlock], 1%nat.
+  exists (fun _ => []), [OReq (mkReq [97] 0 VExecute VPermit); OReq (mkReq [98] 1 VBlock VBlock)], 1%nat.
   eexists. eexists. eexists. vm_compute. repeat split; try reflexivity. discriminate.
 Qed.
